@@ -588,12 +588,21 @@ func main() {
 	}
 	wall := time.Since(start).Seconds()
 
-	if len(m.Problems) > 0 || m.RecheckDiff > 0 {
+	// Runs that could not be controlled (a re-execution diverged, an
+	// uninstrumented primitive blocked) decide nothing. A violation found in
+	// the same batch still stands if its replay file reproduces it exactly in
+	// a fresh process: that execution is then fully determined by the file.
+	// (Seeded changes can add nondeterminism of their own, e.g. by making
+	// behaviour depend on map iteration order.)
+	unsound := len(m.Problems) > 0 || m.RecheckDiff > 0
+	if unsound {
 		for _, p := range m.Problems {
 			fmt.Fprintln(os.Stderr, "problem:", p)
 		}
-		cleanup()
-		die2("the machinery is not sound on this tree (%d problems, %d diverging re-executions); no verdict", len(m.Problems), m.RecheckDiff)
+		if len(m.Failures) == 0 {
+			cleanup()
+			die2("the machinery is not sound on this tree (%d problems, %d diverging re-executions); no verdict", len(m.Problems), m.RecheckDiff)
+		}
 	}
 
 	// ---- failures: verify replays in a fresh process, match known findings ----
@@ -631,6 +640,10 @@ func main() {
 			die2("replay of %s: %v", withReplay.Replay, err)
 		}
 		if !s.ReplayOK {
+			if unsound {
+				fmt.Printf("note: the replay of %s does not reproduce in a fresh process (%s); not reported\n", withReplay.Replay, s.ReplayMsg)
+				continue
+			}
 			cleanup()
 			die2("nondeterminism in the machinery: replaying %s in a fresh process: %s", withReplay.Replay, s.ReplayMsg)
 		}
@@ -668,6 +681,10 @@ func main() {
 			newViolations = append(newViolations, fmt.Sprintf("VIOLATION property=%s replay=%s", prop, dst))
 			fmt.Printf("violation class %s (%d runs), first at run %d: %s\n", c, len(byClass[c]), withReplay.RunIndex, firstLine(withReplay.Msg))
 		}
+	}
+	if unsound && len(newViolations) == 0 {
+		cleanup()
+		die2("the machinery is not sound on this tree (%d problems, %d diverging re-executions) and no violation with an exactly reproducing replay was found; no verdict", len(m.Problems), m.RecheckDiff)
 	}
 	for i, k := range known {
 		if k.Status == "open" && k.Property == prop {
